@@ -77,9 +77,9 @@ public:
       {
         va_copy(tmp, vl);
 #ifdef _MSC_VER
-        result = _vscprintf(format, vl);
+        result = _vscprintf(format, tmp);
 #else
-        result = vsnprintf(0, 0, format, vl);
+        result = vsnprintf(0, 0, format, tmp);
 #endif
         va_end(tmp);
         ASSERT(result >= 0);
@@ -87,7 +87,7 @@ public:
         {
           data.reserve(result);
           va_copy(tmp, vl);
-          result = vsnprintf((char*)data, result + 1, format, vl);
+          result = vsnprintf((char*)data, result + 1, format, tmp);
           va_end(tmp);
           ASSERT(result >= 0);
           if(result >= 0)
